@@ -1015,6 +1015,7 @@ where
             n_prime,
             s_prime,
             alpha: crate::verif::f(alpha_prime),
+            ratio: crate::verif::f(accept_ratio),
         });
         (
             position_minus,
